@@ -575,6 +575,41 @@ func registerSchedStubs(sh *Shared) {
 		s.maxPreempt = int(asInt64(fr.i.concretizeInt(args[0])))
 		return nil
 	})
+	// sync.Pool: a LIFO free list (always reuses the most recently put object: the adversarial
+	// choice for stale-state bugs; the real pool may also drop objects)
+	pools := func(fr *frame) map[*value][]value {
+		st := fr.i.side()
+		if st.pools == nil {
+			st.pools = map[*value][]value{}
+		}
+		return st.pools
+	}
+	reg("(*sync.Pool).Get", func(fr *frame, args []value) value {
+		fr.i.syncPoint(fr, "pool-get")
+		ptr := args[0].(*value)
+		fr.i.hbAcquire(fr, args[0])
+		if l := pools(fr)[ptr]; len(l) > 0 {
+			v := l[len(l)-1]
+			pools(fr)[ptr] = l[:len(l)-1]
+			return v
+		}
+		st := (*ptr).(structure)
+		newFn := st[fieldIndex(mustDeref(fr.i.shared.poolType()), "New")]
+		if c, ok := newFn.(*closure); ok && c != nil {
+			return call(fr.i, fr, token.NoPos, c, nil)
+		}
+		if f, ok := newFn.(*ssa.Function); ok && f != nil {
+			return call(fr.i, fr, token.NoPos, f, nil)
+		}
+		return iface{}
+	})
+	reg("(*sync.Pool).Put", func(fr *frame, args []value) value {
+		fr.i.syncPoint(fr, "pool-put")
+		ptr := args[0].(*value)
+		pools(fr)[ptr] = append(pools(fr)[ptr], args[1])
+		fr.i.hbRelease(fr, args[0])
+		return nil
+	})
 	reg(mainPath+".concRounds", func(fr *frame, args []value) value { return 1 })
 	for _, n := range []string{"barrierReset", "barrierWait", "barrierOpen", "hLock", "hUnlock"} {
 		reg(mainPath+"."+n, func(fr *frame, args []value) value { return nil })
@@ -614,4 +649,8 @@ func registerSchedStubs(sh *Shared) {
 		fr.i.hbAcquire(fr, args[0])
 		return nil
 	})
+}
+
+func (sh *Shared) poolType() types.Type {
+	return types.NewPointer(sh.prog.ImportedPackage("sync").Type("Pool").Type())
 }
